@@ -74,6 +74,8 @@ func c15Run(c *ev.Ctx) {
 	var order []string // insertion order of live ids (keys)
 	var liveBytes uint64
 	reloaded, sawRefusal, sawIndirect := false, false, false
+	var backing *memio.File // the file the current heap was loaded from (nil: created in memory)
+	var backingAddr uint64
 	maxEnd := uint64(0)
 
 	var region func(end uint64) string
@@ -313,6 +315,31 @@ func c15Run(c *ev.Ctx) {
 			order = append(order[:i], order[i+1:]...)
 			liveBytes -= o.len
 		case 4: // write out + load back
+			if backing != nil && r.Bool() {
+				// the heap was loaded from a file: write it back in place (the modify path of an
+				// open-modify-close session), load it again and go on with the loaded copy
+				hist = append(hist, c15Op{Op: "writeat+load"})
+				if err := fh.WriteAt(backing, sb); err != nil {
+					fail("persist:writeat-failed:"+regionKey()+rl(), err.Error())
+					return
+				}
+				nh := structures.NewWritableFractalHeap(blockSize)
+				if err := nh.LoadFromFile(backing, backingAddr, sb); err != nil {
+					fail("persist:load-after-writeat-failed:"+regionKey()+rl(), err.Error())
+					return
+				}
+				if !checkAll(nh, "persist:loaded-after-writeat") {
+					return
+				}
+				if nh.Header.NumManagedObjects != fh.Header.NumManagedObjects || nh.Header.FreeSpace != fh.Header.FreeSpace || nh.Header.ManagedSpaceOffset != fh.Header.ManagedSpaceOffset {
+					fail("persist:header-after-writeat:"+regionKey()+rl(), fmt.Sprintf("loaded header objects=%d free=%d offset=%d, in memory objects=%d free=%d offset=%d",
+						nh.Header.NumManagedObjects, nh.Header.FreeSpace, nh.Header.ManagedSpaceOffset, fh.Header.NumManagedObjects, fh.Header.FreeSpace, fh.Header.ManagedSpaceOffset))
+					return
+				}
+				fh = nh
+				c.Count("in_place_write_back_sessions", 1)
+				break
+			}
 			hist = append(hist, c15Op{Op: "write+load"})
 			mf := memio.New(4096)
 			addr, err := fh.WriteToFile(mf, mf, sb)
@@ -355,6 +382,7 @@ func c15Run(c *ev.Ctx) {
 			if r.Bool() {
 				fh = nh
 				reloaded = true
+				backing, backingAddr = mf, addr
 				// in-place write after load must reproduce as well
 				if err := fh.WriteAt(mf, sb); err != nil {
 					fail("persist:writeat-failed:"+regionKey()+rl(), err.Error())
@@ -427,9 +455,9 @@ var C15 = &ev.Property{
 	},
 	Cases: func(tier string) int {
 		if tier == "thorough" {
-			return 5000
+			return 40000
 		}
-		return 400
+		return 3000
 	},
 	Run:   c15Run,
 	Floor: func(tier string) int64 { return 30 },
